@@ -1,7 +1,7 @@
 (* C15 - Pod bool/option and load/load_mut are total, size-transparent views.
    Theorems only; each is closed by [exact] of a lemma proved elsewhere. *)
 From Coq Require Import List NArith Bool Arith.
-From Stevia Require Import Base.Res Pod.Pod Pod.PodFacts.
+From Stevia Require Import Base.Res Pod.Pod Pod.PodFacts Pod.PodMore.
 Import ListNotations.
 Open Scope N_scope.
 
@@ -62,3 +62,35 @@ Print Assumptions C15_option_some_iff.
 (* non-vacuity *)
 Example C15_example : load 2 [1; 2; 3] = Ok [1; 2] /\ load 4 [1; 2; 3] = Panic PSlice /\ bool_of_pod 7 = true.
 Proof. repeat split. Qed.
+
+(* ---- the view is a lens on the first size_of bytes ---- *)
+(* storing back what was loaded changes no byte *)
+Theorem C15_store_loaded_is_identity : forall sz data v,
+  load sz data = Ok v -> load_mut_store sz data v = Ok data.
+Proof. exact load_mut_store_same. Qed.
+Print Assumptions C15_store_loaded_is_identity.
+
+(* the last store wins: nothing of an earlier store through load_mut survives a later one *)
+Theorem C15_last_store_wins : forall sz data v w d1,
+  length v = sz -> length w = sz -> load_mut_store sz data v = Ok d1 ->
+  load_mut_store sz d1 w = load_mut_store sz data w.
+Proof. exact load_mut_store_twice. Qed.
+Print Assumptions C15_last_store_wins.
+
+(* a loaded value has exactly size_of bytes and is its own view *)
+Theorem C15_load_idempotent : forall sz data v,
+  load sz data = Ok v -> load sz v = Ok v /\ length v = sz.
+Proof. exact load_idempotent. Qed.
+Print Assumptions C15_load_idempotent.
+
+(* the result of a store depends on the bytes behind the view and on the stored value only *)
+Theorem C15_store_overwrites_whole_view : forall sz d1 d2 v r1 r2,
+  length v = sz -> skipn sz d1 = skipn sz d2 ->
+  load_mut_store sz d1 v = Ok r1 -> load_mut_store sz d2 v = Ok r2 -> r1 = r2.
+Proof. exact load_mut_store_frame. Qed.
+Print Assumptions C15_store_overwrites_whole_view.
+
+Example C15_lens_example :
+  load 2 [7; 8; 9]%N = Ok [7; 8]%N /\ load_mut_store 2 [7; 8; 9]%N [1; 2]%N = Ok [1; 2; 9]%N /\
+  load_mut_store 2 [1; 2; 9]%N [7; 8]%N = Ok [7; 8; 9]%N /\ load 2 [7]%N = Panic PSlice.
+Proof. exact lens_example. Qed.
